@@ -560,7 +560,7 @@ class FakeK8s:
         if r['kind'] == 'list':
             items = [copy.deepcopy(o) for (k, n, _), o in sorted(self.objs.items(), key=lambda kv: int(kv[1]['metadata']['resourceVersion']))
                      if k == res.key and (ns is None or n == ns)]
-            req.info = {'listrv': self.rv, 'uids': [o['metadata']['uid'] for o in items],
+            req.info = {'listrv': self.rv, 'uids': [o['metadata']['uid'] for o in items], 'names': [o['metadata']['name'] for o in items],
                         'rvs': [int(o['metadata']['resourceVersion']) for o in items]}
             return Resp(200, {'kind': res.kind + 'List', 'apiVersion': res.api_version,
                               'metadata': {'resourceVersion': str(self.rv)}, 'items': items})
